@@ -21,6 +21,13 @@ RULE = ('one run = one seeded program on one Connection (plus an observer '
         'exact set of records each commit stores; non-trivial = >= 1 failed '
         'or aborted transaction with new objects or >= 2 commits; distinct '
         '= op trace')
+RULE += ('  '
+         'Later additions: one run in five with an object cache of 1 '
+         'or 3 objects (evictions at savepoints); 6 % of the runs: a '
+         'multi-database arm (primary and secondary connections, which '
+         'of them joins, close() inside the transaction must be '
+         'refused without effect, reuse from the pool shows committed '
+         'state only). ')
 BUDGET = {'quick': {'runs': 12000, 'wall': 300, 'chunk': 25},
           'thorough': {'runs': 1200000, 'wall': 1200, 'chunk': 200}}
 ASSUMPTIONS = [
